@@ -469,10 +469,11 @@ class SingleRandomPart(SingleSweepPart):
     must_complete = False
 
     def __init__(self, prop, engine, name, weight=1.0, errnos=("EIO", "ENOSPC", "EACCES"), second=False,
-                 kinds="core", mp=False, atom=False):
+                 kinds="core", mp=False, atom=False, only=None):
         SingleSweepPart.__init__(self, prop, engine, name, errnos=errnos, weight=weight, second=second, kinds=kinds)
         self.mp = mp
         self.atom = atom
+        self.only = only
         self.rule = self.rule.replace("sweep:", "random:").replace(
             "for every (start state, call) of the menu", "for seeded random (start-state history, call, configuration, "
             "st_blksize, write-through) triples")
@@ -482,7 +483,7 @@ class SingleRandomPart(SingleSweepPart):
 
     def gen(self, seed, tier):
         import random
-        prog = gen.gen_single_random(seed, self.engine.lower(), tier)
+        prog = gen.gen_single_random(seed, self.engine.lower(), tier, only=getattr(self, "only", None))
         if getattr(self, "mp", False) == "mixed":
             prog["knobs"]["mp"] = random.Random("mpmix:%d" % seed).random() < 0.3
         elif getattr(self, "mp", False):
